@@ -128,6 +128,15 @@ def batch(prop, tier, sd):
                     p['requires'].insert(rng.randint(0, len(p['requires'])), 'ctx')
             out.append(d)
     out = [d for d in out if ds.accepts(d)]
+    # several injectors in one file of one package (one generator invocation, one shared name pool)
+    if prop in ('C01', 'C02', 'C03', 'C06', 'C08'):
+        ng = 6 if quick else 40
+        pool = [d for d in out if d['id'][0] in 'rf' and 'variant_of' not in d]
+        for g in range(ng):
+            if len(pool) < 3:
+                break
+            members = [pool.pop(rng.randrange(len(pool))) for _ in range(rng.choice([2, 2, 3]))]
+            out += ds.make_group('g%03d' % g, members)
     # unique ids
     seen = set()
     res = []
@@ -188,14 +197,15 @@ def run(prop, tier, sd, rep, clauses, modes):
         gen = pl.generate_all(cli, root, decls)
         gen_fail = {i: e for i, (rc, e) in gen.items() if rc != 0}
         ok = [d['id'] for d in decls if d['id'] not in gen_fail]
-        dg = pl.drivergen_all(root, ok)
-        dg_fail = {i: e for i, (rc, e) in dg.items() if rc != 0}
+        pkg = {d['id']: pl.pkg_of(d) for d in decls}
+        dgp = pl.drivergen_all(root, sorted({pkg[i] for i in ok}))
+        dg_fail = {i: dgp[pkg[i]][1] for i in ok if dgp[pkg[i]][0] != 0}
         ok = [i for i in ok if i not in dg_fail]
         progs = {}
         for i in ok:
-            progs[i] = wb.extract(os.path.join(root, i), byid[i])
-        built = pl.build_drivers(root, ok, race=True)
-        comp_fail = {i: e for i, e in built.items() if e}
+            progs[i] = wb.extract(os.path.join(root, pkg[i]), byid[i])
+        builtp = pl.build_drivers(root, sorted({pkg[i] for i in ok}), race=True)
+        comp_fail = {i: builtp[pkg[i]] for i in ok if builtp[pkg[i]]}
         ok = [i for i in ok if i not in comp_fail]
         if len(ok) < max(3, len(decls) // 2):
             raise pl.ExitTwo('only %d of %d declarations reached an executable injector (generator refused %d, driver %d, '
@@ -208,8 +218,8 @@ def run(prop, tier, sd, rep, clauses, modes):
 
         # ---- B2: real executions -------------------------------------------------------------------------------
         jobs = [(i, g) for i in ok for g in gmps]
-        results = pl.pmap(lambda j: pl.run_driver(root, j[0], modes=modes, maxruns=maxruns, seed=sd, gomaxprocs=j[1],
-                                                  timeout=900), jobs)
+        results = pl.pmap(lambda j: pl.run_driver(root, pkg[j[0]], modes=modes, maxruns=maxruns, seed=sd, gomaxprocs=j[1],
+                                                  timeout=900, decl=j[0]), jobs)
         trace_parts = []
         nexec = 0
         exhaustive_progs = 0
@@ -228,9 +238,9 @@ def run(prop, tier, sd, rep, clauses, modes):
         # race reports
         races = []
         for i in ok:
-            for fn in os.listdir(os.path.join(root, i)):
-                if fn.startswith('race.'):
-                    races.append((i, open(os.path.join(root, i, fn)).read()))
+            for fn in os.listdir(os.path.join(root, pkg[i])):
+                if fn.startswith('race-%s.' % i):
+                    races.append((i, open(os.path.join(root, pkg[i], fn)).read()))
         # re-number executions globally so that (tr) is unique per file
         lines = []
         trid = {}
@@ -343,7 +353,7 @@ def run(prop, tier, sd, rep, clauses, modes):
             d = byid[did]
             src = ''
             try:
-                src = open(os.path.join(root, did, 'k_band.go.orig')).read()
+                src = open(os.path.join(root, pkg[did], 'k_band.go.orig')).read()
             except OSError:
                 pass
             evs = events_by_tr.get(tr, [])
@@ -366,8 +376,8 @@ def run(prop, tier, sd, rep, clauses, modes):
             reproduced = False
             for did in sorted({o[0] for o in occ})[:3]:
                 for g in (1, 2, 16):
-                    rr = pl.run_driver(root, did, modes=modes, maxruns=maxruns * 4, seed=sd + 17 * g, gomaxprocs=g,
-                                       timeout=900, out=os.path.join(root, did, 'redrive-%d.ndjson' % g))
+                    rr = pl.run_driver(root, pkg[did], modes=modes, maxruns=maxruns * 4, seed=sd + 17 * g, gomaxprocs=g,
+                                       timeout=900, out=os.path.join(root, pkg[did], 'redrive-%s-%d.ndjson' % (did, g)), decl=did)
                     if not os.path.exists(rr['trace']):
                         continue
                     txt = open(rr['trace']).read()
@@ -425,6 +435,7 @@ def run(prop, tier, sd, rep, clauses, modes):
             'samples': [{'declaration': ds.tla_decl(sample_decl), 'first_events_of_one_real_execution': sample_tr,
                          'extracted_program_threads': len(progs[sample_decl['id']]['threads'])}],
             'declarations': len(decls), 'declarations_executed': len(ok),
+            'declarations_sharing_a_file_with_others': len([d for d in decls if d.get('group')]),
             'declarations_with_goroutines': len(nontrivial),
             'generator_refused': sorted(gen_fail)[:20], 'not_compiling_skipped': sorted(comp_fail)[:20],
             'driver_not_generated': sorted(dg_fail)[:20],
